@@ -304,14 +304,6 @@ def decodeRun (codecs : List Char → List Nat → Option (List Char)) : DecodeS
     let (st2, os) := decodeRun codecs st1 ops
     (st2, o :: os)
 
-/-- the codecs the driver knows (correspondence only): utf8 (strict), latin1, ascii; anything else raises -/
-def driverCodec (key : List Char) (b : List Nat) : Option (List Char) :=
-  if key = "utf8".toList then
-    none   -- replaced below by `Spec.utf8Decode` (defined later in this file)
-  else if key = "latin1".toList then some (b.map Char.ofNat)
-  else if key = "ascii".toList then (if b.all (· < 128) then some (b.map Char.ofNat) else none)
-  else none
-
 /-! ## Spec: reference decoders -/
 namespace Spec
 
@@ -432,6 +424,12 @@ abbrev charRef (c : Char) : List Char := xeeEscapeChar c
 everything else is unchanged (the output is the text whose strict encoding the codec then emits). -/
 def HandlerFaithful (enc : Char → Bool) (grouped : Bool) (s : List Char) : Prop :=
   handlerEncode enc grouped s = some (s.flatMap fun c => if enc c then [c] else charRef c)
+
+/-- the charsets of the closures a history creates, in order of creation -/
+def lookupsOf : List DecodeOp → List (List Char)
+  | [] => []
+  | .lookup key :: ops => key :: lookupsOf ops
+  | .call _ _ :: ops => lookupsOf ops
 
 end Spec
 
